@@ -1,0 +1,104 @@
+// Copyright 2019 Samaritan Authors
+//
+// Licensed under the Apache License, Version 2.0 (the "License");
+// you may not use this file except in compliance with the License.
+// You may obtain a copy of the License at
+//
+//      http://www.apache.org/licenses/LICENSE-2.0
+//
+// Unless required by applicable law or agreed to in writing, software
+// distributed under the License is distributed on an "AS IS" BASIS,
+// WITHOUT WARRANTIES OR CONDITIONS OF ANY KIND, either express or implied.
+// See the License for the specific language governing permissions and
+// limitations under the License.
+
+//go:build verif
+// +build verif
+
+package redis
+
+import (
+	"sync"
+	"time"
+
+	"github.com/samaritan-proxy/samaritan/host"
+	"github.com/samaritan-proxy/samaritan/pb/config/protocol"
+	"github.com/samaritan-proxy/samaritan/pb/config/service"
+	"github.com/samaritan-proxy/samaritan/proc"
+	"github.com/samaritan-proxy/samaritan/proc/internal/log"
+	"github.com/samaritan-proxy/samaritan/stats"
+)
+
+// This file only exists with the build tag "verif". It exposes the routing
+// decision of a real upstream (chooseHost) and its slot table refresh
+// (doSlotsRefresh) to the model-based verification harness (property C12).
+
+// VerifRouter is an upstream built the way the processor builds it (seed
+// hosts in a host.Set, empty slot table), without its background loops: the
+// harness decides when the table is refreshed.
+type VerifRouter struct {
+	u    *upstream
+	reqs sync.Map // command name -> *simpleRequest (chooseHost only asks it whether it is read-only)
+}
+
+// VerifNewRouter creates an upstream over the given seed hosts.
+func VerifNewRouter(name string, seeds []string) *VerifRouter {
+	hosts := make([]*host.Host, 0, len(seeds))
+	for _, s := range seeds {
+		hosts = append(hosts, host.New(s))
+	}
+	timeout := 2 * time.Second
+	raw := &service.Config{
+		ConnectTimeout:  &timeout,
+		Protocol:        protocol.Redis,
+		ProtocolOptions: &service.Config_RedisOption{RedisOption: &protocol.RedisOption{}},
+	}
+	u := newUpstream(newConfig(raw), hosts, log.New("[verif-"+name+"]"),
+		proc.NewUpstreamStats(stats.CreateScope("verif_"+name)))
+	return &VerifRouter{u: u}
+}
+
+// Route returns the address the upstream sends the command `cmd key ...` to:
+// the routing decision itself, not a re-computation of it.
+func (r *VerifRouter) Route(cmd string, key []byte) (string, error) {
+	req, ok := r.reqs.Load(cmd)
+	if !ok {
+		req, _ = r.reqs.LoadOrStore(cmd, newSimpleRequest(newStringArray(cmd, "k", "v")))
+	}
+	return r.u.chooseHost(key, req.(*simpleRequest))
+}
+
+// Refresh runs one refresh of the slot table (CLUSTER NODES to a seed host).
+func (r *VerifRouter) Refresh() error { return r.u.doSlotsRefresh() }
+
+// SetTable fills the slot table directly: slot i belongs to an instance with
+// address owner(i); an empty address leaves the slot without an owner.
+func (r *VerifRouter) SetTable(owner func(slot int) string) {
+	insts := map[string]*instance{}
+	for i := range r.u.slots {
+		addr := owner(i)
+		if addr == "" {
+			r.u.slots[i] = nil
+			continue
+		}
+		inst := insts[addr]
+		if inst == nil {
+			inst = &instance{ID: addr, Addr: addr}
+			insts[addr] = inst
+		}
+		inst.Slots = append(inst.Slots, i)
+		r.u.slots[i] = inst
+	}
+}
+
+// Close stops the backend clients created by refreshes.
+func (r *VerifRouter) Close() { r.u.resetAllClients() }
+
+// VerifInstanceAddr returns the address of a *instance passed to a hook point.
+func VerifInstanceAddr(obj interface{}) (string, bool) {
+	inst, ok := obj.(*instance)
+	if !ok || inst == nil {
+		return "", false
+	}
+	return inst.Addr, true
+}
